@@ -164,6 +164,7 @@ Section Protocol.
     - split; [repeat split; cbn; auto; try (apply map_upd_pc; auto); apply upd_length|cbn; auto].
     - split; [repeat split; cbn; auto; try (apply map_upd_pc; auto); apply upd_length|cbn; auto].
     - split; [repeat split; cbn; auto; try (apply map_upd_pc; auto); apply upd_length|cbn; auto].
+    - split; [repeat split; cbn; auto; try (apply map_upd_pc; auto); apply upd_length|cbn; auto].
     - split; [repeat split; cbn; auto; apply own_part_del|cbn; auto].
   Qed.
 
@@ -286,7 +287,7 @@ Section Protocol.
   Definition progress_label (l : label) : bool :=
     match l with
     | LRunCall | LStopCall _ | LCancel | LReloadCall _ | LForeignBind _ | LForeignFree _
-    | LObsState _ | LObsDial _ _ | LObsServe _ _ | LQuiesce | LRunRet _ | LStopRet _ | LReloadRet _
+    | LObsState _ | LObsDial _ _ | LObsServe _ _ | LObsCensus _ | LQuiesce | LRunRet _ | LStopRet _ | LReloadRet _
     | LLasClosed _ => false
     | _ => true
     end.
